@@ -246,6 +246,18 @@ func c07File(size int, trailing uint64, seed int64) []byte {
 	return append(b, c07U64(trailing)...)
 }
 
+// c07LookAlike overwrites the start of an (unsigned) file with the first ten bytes of an integrity block:
+// array(3) head, byte-string head 0x48 and the integrity-block magic at offsets 2..9.  Whether a file carries an
+// integrity block is decided by its trailing length, not by how it begins.
+func c07LookAlike(file []byte) []byte {
+	if len(file) < 18 {
+		return file
+	}
+	out := append([]byte{}, file...)
+	copy(out, append([]byte{0x83, 0x48}, integrityblock.IntegrityBlockMagic...))
+	return out
+}
+
 func c07Sign(s *integrityblock.IntegrityBlockSigner, pub ed25519.PublicKey, m integrityblock.SignatureAttributesMap) (err error, pan string) {
 	defer func() {
 		if r := recover(); r != nil {
@@ -643,8 +655,13 @@ func c07FuncRun(c *mc.Ctx) {
 			tr = al[c.Free(len(al), "trailing")]
 		}
 		file := c07File(size, tr, c.Seed)
+		lk := ""
+		if size >= 18 && c.Free(2, "content start: pattern / like an integrity block") == 1 {
+			file = c07LookAlike(file)
+			lk = ",starts like an integrity block"
+		}
 		class := refib.Classify(file)
-		desc := fmt.Sprintf("obtain(size=%d,trailing=%d)", size, tr)
+		desc := fmt.Sprintf("obtain(size=%d,trailing=%d%s)", size, tr, lk)
 		c.State(file)
 		dir, err := os.MkdirTemp(os.TempDir(), "c07f-")
 		if err != nil {
@@ -843,11 +860,20 @@ func c07ToolRun(c *mc.Ctx) {
 	keys := c07ToolKeys(c.Quick())
 	key := keys[c.Free(len(keys), "key")]
 	file := c07File(size, tr, c.Seed)
+	look := 0
+	if size >= 18 {
+		if look = c.Free(2, "content starts like a bundle-less pattern / like an integrity block"); look == 1 {
+			file = c07LookAlike(file)
+		}
+	}
 	class := refib.Classify(file)
 	// the -o path may already exist (an earlier, possibly longer, output): the result must
 	// still be exactly block || input
 	pre := c.Free(3, "pre-existing -o file: none/shorter/longer")
 	desc := fmt.Sprintf("size=%d,trailing=%s,key=%s,existing-output=%s", size, trName, key.name, []string{"none", "shorter", "longer"}[pre])
+	if look == 1 {
+		desc += ",starts-like-an-integrity-block"
+	}
 	c.State(file, []byte(key.name), []byte{byte(pre)})
 	c.Outcome("gen: input " + class)
 
